@@ -11,8 +11,14 @@ Domain : (1) every .co file shipped in the repository (library, examples, docs, 
              'bare' (only statements the expansion leaves untouched: match <event>, assignments, send <event>, log, print, match
              $ref.Finished() - plus if/elif/else chains and loops) or 'mixed' (also await/start/activate/groups/when/pass);
              if / elif / else chains of 1-3 conditions; a third of the branches inside a loop consist of `break` / `continue` alone;
-         (5) two enumerated families: Colang 1.0 when chains (2-3 branches x ending of every branch x 9 surroundings) and
-             Colang 2.x loop exits (13 neighbour sets x 5 chain forms x 5 branch-ending patterns x 6 placements).
+         (5) generated Colang 2.x group programs (own JSON formulas): and / or formulas nested up to 3 deep over a pool of 2-4 members
+             (flows, flows with arguments, actions, mixed, events), so members and whole alternatives of the normal form REPEAT
+             (`a or b or a`, `(a or b) and (b or a)`, `a and a`), in every statement form that takes a group (await, bare statement,
+             $z = await / $z = <group>, start, match, send, when cases, activate of and-groups), with / without `as $ref` captures,
+             at top level / in while loops / if / else / when branches;
+         (6) three enumerated families: Colang 1.0 when chains (2-3 branches x ending of every branch x 9 surroundings),
+             Colang 2.x loop exits (13 neighbour sets x 5 chain forms x 5 branch-ending patterns x 6 placements) and Colang 2.x
+             group formulas with repetition (every formula of 2-4 member slots up to renaming x statement form x member kind).
 Oracle : static closure predicate over the compiled elements.
          2.x, after initialize_state: every element is a primitive the interpreter's `slide` executes (SpecOp send/match/
          _new_action_instance with a Spec - not a group dict - as spec; Label, Goto, ForkHead, MergeHeads, WaitForHeads,
@@ -43,15 +49,28 @@ RULE = (
     "await action / flow, start, match group, send group, when) x 5 chain forms (if .. if-elif-elif-else) x 5 branch endings (all break, all "
     "continue, alternating, first branch with a statement in front of the break, only the last branch exits) x 6 placements (alone, chain "
     "followed by a statement, inner loop of a loop without / with other statements, outer loop around another loop, chain nested in an if). "
+    "family group-repeat: one Colang 2.x group statement for every small formula up to renaming of its members - flat and / or groups of "
+    "2-4 members, (x op y) op' (z op w), x op' (y op z), (x op y) op' z, the member slots filled with every pattern of equal / different "
+    "members (aa, ab, aaa .. abc, aaaa .. abcd: 144 formulas, most of them with a repeated member or a duplicate alternative in the "
+    "disjunctive normal form) - x 9 statement forms (await, bare statement, $z = await, $z = <group>, start, match, send, when case, "
+    "activate [and-groups only]) x the member kinds the form takes (flows, flows with arguments, actions, flows + actions, events, events + "
+    "flows in when cases); every third case stands in a while loop / if / else / when branch instead of at top level. "
     "generated: co2 programs (depth<=3 nesting of if/while/when, groups, break/continue, flows with parameters); co1 programs when the "
     "module is present; Colang 1.0 texts (label/checkpoint, goto, if/else, while with break/continue, when chains of 1-4 branches, return / "
     "return $v / stop / abort closing any block, every when branch independently as drawn / exit appended / exit alone, a third of the flows "
     "ending with a when chain, flow or subflow); Colang 2.x loop programs (1-3 top-level loops nested up to 3 deep, each loop drawn 'bare' - "
     "only statements that need no expansion plus if chains and loops - or 'mixed' with await/start/activate/groups/when/pass; if/elif/else "
     "chains of 1-3 conditions; a third of the branches inside a loop are `break` / `continue` alone; exits also at the end of longer branches "
-    "and in when branches). Shares are visible in the labels (when-late-exit@flow-end / @followed / @block-end, bare|mixed+only-exit-branch"
+    "and in when branches; a few expanded statements are groups with a repeated member); Colang 2.x group programs (1-3 flows of 1-3 group "
+    "statements; formula = and / or groups nested up to 3 deep with 2-3 children each, member slots drawn from a pool of 2-4 members so that "
+    "members repeat, then as drawn / one child repeated at the end / the formula mirrored under a second operator - `(a or b) and (b or a)`; "
+    "statement form and member kind as in the family, when statements with 1-3 group cases and optional else, `as $ref` captures on no / "
+    "the first / every member, each statement at top level or inside while / while-with-break / if / else / when branch). "
+    "Shares are visible in the labels (form:*, kind:*, place:*, repeated-member/<form>, member-twice-in-alternative, dup-alternative+distinct>=2/"
+    "<form>, dup-alternative/all-same, dup-alternative-reordered, dnf-altsN, refs:first|all; when-late-exit@flow-end / @followed / @block-end, bare|mixed+only-exit-branch"
     "@single|inner|outer, loop-nestN, elif-in-loop, exit-in-when). Non-trivial = a flow whose source nests composite constructs >= 2 deep, or "
-    "uses break/continue, or a group; v1 texts: >= 3 jump offsets; loop programs: every loop has an exit or loops are nested; for files: a file "
+    "uses break/continue, or a group; v1 texts: >= 3 jump offsets; loop programs: every loop has an exit or loops are nested; group programs: a nested group, a repeated member or >= 2 "
+    "alternatives; for files: a file "
     "whose flows compile to >= 1 jump/fork. Distinct by program text / file path."
 )
 ASSUMPTIONS = [
@@ -63,6 +82,11 @@ ASSUMPTIONS = [
     "that skips the statement behind the chain, an inner `break` carrying the outer loop's label) is not reported - the statement promises "
     "that every target exists inside the same flow, not which one it is; a Break / Continue left with label None is an unresolved loop exit",
     "break / continue are generated only inside while loops; nothing is generated behind an exit statement in the same block",
+    "group programs: whether a repeated alternative is compiled once or several times is not asserted - only that whatever the expansion "
+    "emits is closed (every ForkHead / Goto / failure-handler label exists, scopes closed, no group left); `activate` is generated with "
+    "and-groups only (or-groups are rejected by the expansion); a bare statement or `$z = <group>` is not generated with a member in call "
+    "syntax directly behind a leading `(` / `=` (the grammar reads it as an expression; such groups are written with `await`), and a group "
+    "program the parser still rejects is counted as skipped (label rejected) - the statement quantifies over flows the loader accepts",
 ]
 WALL = {"quick": 150, "thorough": 1500}
 EXHAUSTIVE = False
@@ -114,6 +138,7 @@ def enumerate_cases(tier):
         yield {"leg": "file", "path": rel}
     yield from _v1_when_family()
     yield from _v2_loops_family()
+    yield from _v2_groups_family()
 
 
 _V1_EXITS = ["return", "return", "return $v0", "stop", "abort"]  # statements that leave the flow
@@ -260,6 +285,7 @@ _V2L_EXP = [  # statements that are rewritten into primitives
     'await UtteranceBotAction(script="x")', 'start UtteranceBotAction(script="y") as $a1', "await h0", "start h1 as $r0",
     "match Ev0() or Ev1()", "match Ev2() and Ev3()", "send Out0() and Out1()", "send Out0() or Out1()", "await h0 or h1",
     "start h0 and h1", "activate h1", "$z = await h0", "pass",
+    "await h0 or h1 or h0", "(h0 or h1) and (h1 or h0)", "start h0 or h0 or h1", "match Ev0() or Ev1() or Ev0()",  # groups with a repeated member
 ]
 _V2L_CONDS = ["$x < 3", "$y == 1", "True", "$x > $y", "$y < 2"]
 _V2L_HEAD = 'flow h0\n  match Ev8()\n\nflow h1\n  match Ev9()\n\nflow main\n  $x = 0\n  $y = 0\n  start UtteranceBotAction(script="a") as $a0\n'
@@ -492,9 +518,261 @@ def _v2_loops_family():
                     yield {"leg": "v2loops", "body": body, "family": f"loop-exit/{nname}/{fname}/{pattern}/{pname}"}
 
 
+# ---------------------------------------------------------------------------------------------
+# Colang 2.x group formulas: a formula is a leaf index (int) or [op, [child, ...]] with op in ("or", "and"); a leaf index selects a
+# member of the pool of the statement's kind, so the same index twice is the same flow / action / event (with the same arguments)
+# twice.  A statement is {"form", "kind", "fs": [formula, ...], "refs": 0|1|2, "else": bool}; a flow is a list of
+# {"place", "stmt"}; a case is {"leg": "v2groups", "flows": [[...], ...]}.
+
+_V2G_POOLS = {
+    "flow": ["g0", "g1", "g2", "g3"],
+    "argflow": ['gp "x"', 'gp "y"', "g0", 'gp "z"'],  # the same flow with different arguments are different members
+    "action": ['UtteranceBotAction(script="a")', 'UtteranceBotAction(script="b")', 'GestureBotAction(gesture="g")', 'UtteranceBotAction(script="c")'],
+    "mixed": ["g0", 'UtteranceBotAction(script="a")', "g1", 'gp "x"'],
+    "event": ["Ev0()", "Ev1(v=1)", 'UtteranceUserAction.Finished(final_transcript="hi")', "g0.Finished()"],
+    "out": ["Out0()", "Out1(v=1)", 'Out3(t="x")', "Out2()"],
+    "mixed-event": ["Ev0()", "g1", 'UtteranceBotAction(script="a")', "Ev1(v=1)"],  # when cases only: events are matched, the rest is started
+}
+_V2G_STARTED = ["flow", "argflow", "action", "mixed"]
+_V2G_FORMS = {  # statement form -> kinds of members it takes
+    "await": _V2G_STARTED, "bare": _V2G_STARTED, "assign-await": _V2G_STARTED, "assign-bare": _V2G_STARTED, "start": _V2G_STARTED,
+    "match": ["event"], "send": ["out"], "when": _V2G_STARTED + ["event", "mixed-event"], "activate": ["flow", "argflow"],
+}
+_V2G_PREFIX = {"await": "await ", "bare": "", "assign-await": "$z = await ", "assign-bare": "$z = ", "start": "start ", "match": "match ", "send": "send ", "activate": "activate "}
+_V2G_PLACES = ["top", "while", "while-break", "if", "else", "when-branch"]
+_V2G_HEAD = "".join(f"flow g{i}\n  match Eg{i}()\n\n" for i in range(4)) + "flow gp $t\n  match Egp(t=$t)\n\n"
+
+
+def _v2g_leaves(f):
+    return [f] if isinstance(f, int) else [x for c in f[1] for x in _v2g_leaves(c)]
+
+
+def _v2g_dnf(f):
+    """Disjunctive normal form of a formula: list of alternatives, each a tuple of leaf indices (in source order)."""
+    if isinstance(f, int):
+        return [(f,)]
+    parts = [_v2g_dnf(c) for c in f[1]]
+    if f[0] == "or":
+        return [alt for p in parts for alt in p]
+    out = [()]
+    for p in parts:
+        out = [a + b for a in out for b in p]
+    return out
+
+
+def _v2g_force_and(f):
+    return f if isinstance(f, int) else ["and", [_v2g_force_and(c) for c in f[1]]]
+
+
+def _v2g_render_formula(f, pool, refs, counter, top=True):
+    if isinstance(f, int):
+        txt = pool[f % len(pool)]
+        counter[0] += 1
+        if refs == 2 or (refs == 1 and counter[0] == 1):
+            counter[1] += 1
+            txt += f" as $r{counter[1]}"
+        return txt
+    txt = f" {f[0]} ".join(_v2g_render_formula(c, pool, refs, counter, False) for c in f[1])
+    return txt if top else "(" + txt + ")"
+
+
+def _v2g_bare_ok(s):
+    """The 2.x grammar reads a statement that begins with `(` directly followed by a member in call syntax as something else
+    (`(UtteranceBotAction(script="a") or g0) or g1` is a syntax error or an assignment, `(g0 or ...` is a group), and so it does with
+    `$z = UtteranceBotAction(script="a") or g0`: such groups are written with an explicit `await`."""
+    if s["form"] not in ("bare", "assign-bare"):
+        return True
+    f = s["fs"][0]
+    if s["form"] == "bare" and (isinstance(f, int) or isinstance(f[1][0], int)):
+        return True
+    pool = _V2G_POOLS[s["kind"]]
+    return "(" not in pool[_v2g_leaves(f)[0] % len(pool)]
+
+
+def _v2g_render_stmt(s, ind, out, refc):
+    p = "  " * ind
+    pool = _V2G_POOLS[s["kind"]]
+    if s["form"] == "when":
+        for i, f in enumerate(s["fs"]):
+            out.append(p + ("when " if i == 0 else "or when ") + _v2g_render_formula(f, pool, s.get("refs", 0), [0, refc[0]]))
+            refc[0] += len(_v2g_leaves(f))
+            out.append(p + f"  $y = {i + 1}")
+        if s.get("else"):
+            out.append(p + "else")
+            out.append(p + "  $y = 0")
+        return
+    f = _v2g_force_and(s["fs"][0]) if s["form"] == "activate" else s["fs"][0]
+    out.append(p + _V2G_PREFIX[s["form"]] + _v2g_render_formula(f, pool, s.get("refs", 0), [0, refc[0]]))
+    refc[0] += len(_v2g_leaves(f))
+
+
+def _v2g_text(flows):
+    out = []
+    for fi, items in enumerate(flows):
+        refc = [0]
+        out += [f"flow t{fi}", "  $x = 0", "  $y = 0"]
+        for it in items:
+            place, s = it["place"], it["stmt"]
+            if place == "top":
+                _v2g_render_stmt(s, 1, out, refc)
+            elif place == "while":
+                out.append("  while $x < 3")
+                _v2g_render_stmt(s, 2, out, refc)
+                out.append("    $x = $x + 1")
+            elif place == "while-break":
+                out.append("  while True")
+                _v2g_render_stmt(s, 2, out, refc)
+                out += ["    if $y == 1", "      break"]
+            elif place == "if":
+                out.append("  if $y == 0")
+                _v2g_render_stmt(s, 2, out, refc)
+            elif place == "else":
+                out += ["  if $y == 0", "    $y = 1", "  else"]
+                _v2g_render_stmt(s, 2, out, refc)
+            elif place == "when-branch":
+                out.append("  when Ev9()")
+                _v2g_render_stmt(s, 2, out, refc)
+                out += ["  or when Ev8()", "    $y = 2"]
+            else:
+                raise ValueError(place)
+        out += ["  send Done()", ""]
+    return _V2G_HEAD + "\n".join(out) + "\nflow main\n  match Never()\n"
+
+
+def _v2g_shape(flows):
+    """Labels for the group statements of a v2groups program: form, member kind, place, and how members repeat - the same member
+    twice anywhere in the formula, twice inside one alternative of the normal form, the same alternative (as a set of members) twice
+    while >= 2 different alternatives remain / while all alternatives are the same."""
+    labels = set()
+    for items in flows:
+        for it in items:
+            s = it["stmt"]
+            labels.add("form:" + s["form"])
+            labels.add("kind:" + s["kind"])
+            labels.add("place:" + it["place"])
+            if s.get("refs"):
+                labels.add("refs:" + ("first" if s["refs"] == 1 else "all"))
+            for f in s["fs"]:
+                if s["form"] == "activate":
+                    f = _v2g_force_and(f)
+                n = len(_V2G_POOLS[s["kind"]])
+                leaves = [x % n for x in _v2g_leaves(f)]
+                alts = [tuple(x % n for x in a) for a in _v2g_dnf(f)]
+                sets = [frozenset(a) for a in alts]
+                labels.add(f"dnf-alts{min(len(alts), 5)}{'+' if len(alts) >= 5 else ''}")
+                if not isinstance(f, int) and any(not isinstance(c, int) for c in f[1]):
+                    labels.add("nested-group")
+                if len(set(leaves)) < len(leaves):
+                    labels.add("repeated-member")
+                    labels.add("repeated-member/" + s["form"])
+                if any(len(set(a)) < len(a) for a in alts):
+                    labels.add("member-twice-in-alternative")
+                if len(set(sets)) < len(sets):
+                    tag = "dup-alternative+distinct>=2" if len(set(sets)) >= 2 else "dup-alternative/all-same"
+                    labels.add(tag)
+                    labels.add(tag + "/" + s["form"])
+                    if len(set(alts)) == len(alts):
+                        labels.add("dup-alternative-reordered")  # `a and b` next to `b and a`
+    return sorted(labels)
+
+
+@st.composite
+def _v2g_formula(draw, npool):
+    """Group formula with 2-8 member slots filled from a pool of npool members (npool <= 2 forces repetition), then one of:
+    as drawn / one top-level child repeated at the end (a or b -> a or b or a) / the whole formula mirrored under a second
+    operator ((a or b) and (b or a))."""
+    leaf = st.integers(0, npool - 1)
+
+    def group(depth):
+        child = leaf if depth <= 0 else st.one_of(leaf, leaf, st.deferred(lambda: group(depth - 1)))
+        return st.tuples(st.sampled_from(["or", "or", "and"]), st.lists(child, min_size=2, max_size=3)).map(lambda t: [t[0], t[1]])
+
+    f = draw(group(draw(st.sampled_from([0, 0, 1, 1, 2]))))
+    while len(_v2g_leaves(f)) > 5:  # keep the normal form small: drop children of the widest group
+        f = [f[0], f[1][:-1]] if len(f[1]) > 2 else f[1][0]
+        if isinstance(f, int):
+            f = ["or", [f, draw(leaf)]]
+    rep = draw(st.sampled_from(["as-drawn", "as-drawn", "repeat-child", "mirror"]))
+    if rep == "repeat-child":
+        k = draw(st.integers(0, len(f[1]) - 1))
+        f = [f[0], f[1] + [f[1][k]]]
+    elif rep == "mirror" and len(_v2g_leaves(f)) <= 3:
+        def rev(x):
+            return x if isinstance(x, int) else [x[0], [rev(c) for c in reversed(x[1])]]
+
+        f = [draw(st.sampled_from(["and", "or"])), [f, rev(f)]]
+    return f
+
+
+@st.composite
+def _v2g_stmt(draw):
+    form = draw(st.sampled_from(["await", "await", "bare", "bare", "assign-await", "assign-bare", "start", "match", "send", "when", "when", "activate"]))
+    kind = draw(st.sampled_from(_V2G_FORMS[form]))
+    npool = draw(st.sampled_from([2, 2, 3, 3, 4]))
+    s = {"form": form, "kind": kind, "fs": [draw(_v2g_formula(npool))], "refs": 0 if form in ("send", "activate") else draw(st.sampled_from([0, 0, 0, 1, 2]))}
+    if not _v2g_bare_ok(s):
+        s["form"] = {"bare": "await", "assign-bare": "assign-await"}[form]
+    if form == "when":
+        for _ in range(draw(st.integers(0, 2))):
+            s["fs"].append(draw(_v2g_formula(npool)))
+        s["else"] = kind not in ("event",) and draw(st.booleans())
+    return s
+
+
+@st.composite
+def _v2_groups_case(draw):
+    flows = []
+    for _ in range(draw(st.integers(1, 3))):
+        flows.append([{"place": draw(st.sampled_from(_V2G_PLACES)), "stmt": draw(_v2g_stmt())} for _ in range(draw(st.integers(1, 3)))])
+    return {"leg": "v2groups", "flows": flows}
+
+
+def _v2_groups_family():
+    """Enumerated: every small group formula up to renaming of its members - flat groups of 2-4 members, (x op y) op' (z op w),
+    x op' (y op z), (x op y) op' z for op, op' in {or, and}, member slots filled with every pattern of equal / different members
+    (set partitions of the slots: aa, ab; aaa .. abc; aaaa .. abcd) - x statement form x member kind; the place rotates."""
+
+    def patterns(n):  # restricted growth strings = which slots hold the same member
+        out = [[0]]
+        for _ in range(n - 1):
+            out = [p + [v] for p in out for v in range(max(p) + 2)]
+        return out
+
+    formulas = []
+    for op in ("or", "and"):
+        for n in (2, 3, 4):
+            for p in patterns(n):
+                formulas.append((f"flat{n}-{op}", [op, list(p)]))
+    for op in ("or", "and"):
+        for op2 in ("or", "and"):
+            for p in patterns(4):
+                formulas.append((f"({op})-{op2}-({op})", [op2, [[op, p[:2]], [op, p[2:]]]]))
+            for p in patterns(3):
+                formulas.append((f"x-{op2}-({op})", [op2, [p[0], [op, p[1:]]]]))
+                formulas.append((f"({op})-{op2}-x", [op2, [[op, p[:2]], p[2]]]))
+    n = 0
+    for form, kinds in _V2G_FORMS.items():
+        for kind in kinds:
+            if form in ("assign-await", "assign-bare") and kind != "flow":
+                continue
+            for shape, f in formulas:
+                if form == "activate" and "or" in shape:
+                    continue
+                place = _V2G_PLACES[(n // 3) % len(_V2G_PLACES)] if n % 3 == 0 else "top"
+                n += 1
+                stmt = {"form": form, "kind": kind, "fs": [f], "refs": 0}
+                if form == "when":
+                    stmt["else"] = kind != "event" and n % 2 == 0
+                if not _v2g_bare_ok(stmt):
+                    continue
+                yield {"leg": "v2groups", "flows": [[{"place": place, "stmt": stmt}]], "family": f"group-repeat/{form}/{kind}/{shape}"}
+
+
 @st.composite
 def _case(draw):
-    leg = draw(st.integers(0, 11))
+    leg = draw(st.integers(0, 14))
+    if leg >= 12:
+        return draw(_v2_groups_case())
     if leg < 3:
         return draw(_v1_offsets_case())
     if leg < 6:
@@ -749,10 +1027,11 @@ def _v1_when_shape(text):
     return sorted(labels)
 
 
-def _check_v2_text(text):
+def _check_v2_text(text, flows=None):
     """Parses the program once and compiles the parsed flows twice - what two LLMRails instances built from one RailsConfig do -:
     every compilation must be closed."""
-    flows = smh.parse(text)
+    if flows is None:
+        flows = smh.parse(text)
     for rnd in (1, 2):
         tag = "" if rnd == 1 else "recompiled-"
         try:
@@ -796,6 +1075,19 @@ def prop(case):
             parts = case["family"].split("/")
             labels += ["family:" + parts[0], "family:" + parts[0] + "/neighbours=" + parts[1], "family:" + parts[0] + "/place=" + parts[4]]
         return ok(nt="loop-without-exit" not in labels or len([x for x in labels if x.startswith("loop-nest")]) > 1, labels=labels, view={"program": text})
+    if case["leg"] == "v2groups":
+        text = _v2g_text(case["flows"])
+        try:
+            parsed = smh.parse(text)
+        except Exception as e:
+            return ok(skip="v2 group program not accepted by the parser: " + type(e).__name__, labels=["v2groups", "rejected"], view={"program": text})
+        _check_v2_text(text, parsed)
+        labels = ["v2groups"] + _v2g_shape(case["flows"])
+        if case.get("family"):
+            parts = case["family"].split("/")
+            labels += ["family:" + parts[0], "family:" + parts[0] + "/form=" + parts[1], "family:" + parts[0] + "/shape=" + parts[3]]
+        nt = any(x in labels for x in ("repeated-member", "nested-group")) or any(x.startswith("dnf-alts") and x != "dnf-alts1" for x in labels)
+        return ok(nt=nt, labels=labels, view={"program": text})
     if case["leg"] == "v1gen":
         from nemoguardrails.colang import parse_colang_file
 
